@@ -562,6 +562,25 @@ theorem projection_invariant (logs : List CLog) (hwf : wellFormedHistory logs = 
     ∃ A, project logs = conc A ∧ Inv A (replay logs) :=
   ⟨_, project_eq logs, inv_steps logs {} _ (wfHistory_of logs hwf) inv_empty⟩
 
+/-- clause (i) in the form a reader of `moves` uses it: for every well-formed history, ledger, account and asset with at least one
+move, the move with the greatest `seq` carries the replayed inputs and outputs -/
+theorem projection_running_volumes (logs : List CLog) (hwf : wellFormedHistory logs = true) (l a x : String)
+    (hm : ∃ m ∈ (replay logs l).moves, m.account = a ∧ m.asset = x) :
+    (col (lastMove (project logs) l a x) (fun r => r.post_commit_volumes) ==
+      volPair (input (replay logs l) When.always a x) (output (replay logs l) When.always a x)) = true := by
+  obtain ⟨A, e, hinv⟩ := projection_invariant logs hwf
+  rw [e]; exact clause_volumes hinv l a x hm
+
+/-- clause (ii) for EVERY date `d` (not only those that occur, which is what the executable comparison looks at): if some move of the
+account and asset is dated `≤ d`, the move last by (effective_date, seq) among those dated `≤ d` carries the replayed inputs and
+outputs by effective date `d` — the invariant `insert_move`'s patching of the later-dated rows maintains -/
+theorem projection_effective_volumes (logs : List CLog) (hwf : wellFormedHistory logs = true) (l a x : String) (d : Int)
+    (hm : ∃ m ∈ (replay logs l).moves, m.account = a ∧ m.asset = x ∧ m.effective ≤ d) :
+    (col (lastEffectiveMove (project logs) l a x d) (fun r => r.post_commit_effective_volumes) ==
+      volPair (input (replay logs l) (When.effectiveBy d) a x) (output (replay logs l) (When.effectiveBy d) a x)) = true := by
+  obtain ⟨A, e, hinv⟩ := projection_invariant logs hwf
+  rw [e]; exact clause_effective hinv l a x d hm
+
 /-- non-vacuity of the hypothesis: the rich example and every history of the small-scope enumeration satisfy it … -/
 theorem wellFormed_examples : wellFormedHistory exLogs2 = true ∧ (Search.histories 2).all wellFormedHistory = true := by
   constructor
